@@ -28,6 +28,9 @@ NP_VIEW = {'swapaxes', 'reshape', 'squeeze', 'ravel', 'transpose', 'atleast_1d',
 NP_ALIAS = {'asarray', 'asanyarray', 'ascontiguousarray'}
 SELF_KINDS = {'thresholds': 'dict', 'burst_kwargs': 'dict', 'find_extrema_kwargs': 'dict', 'df_features': 'df', 'sig': 'nd',
               'sigs': 'nd', 'models': 'list'}
+# per-class overrides: BycycleGroup.fit stores the result of compute_features_2d / _3d, documented as "list of pandas.DataFrame"
+# (nested lists for 3-D), so self.df_features[i][j] = ... is a list store there, not a chained pandas assignment
+CLASS_SELF_KINDS = {'BycycleGroup': {'df_features': 'list'}}
 BUILTINS = set(dir(builtins))
 
 
@@ -109,7 +112,8 @@ class Analysis:
             if n.attr == 'T':
                 return self.k(n.value)
             if isinstance(n.value, ast.Name) and n.value.id == 'self':
-                return SELF_KINDS.get(n.attr)
+                cls = (self.fn.cls or '').rsplit('.', 1)[-1]
+                return CLASS_SELF_KINDS.get(cls, {}).get(n.attr, SELF_KINDS.get(n.attr))
         if isinstance(n, ast.Subscript):
             b = self.k(n.value)
             if b == 'dfindexer':
